@@ -2,18 +2,18 @@
 from props._ssm_names import *
 ID = "C12"
 LEVEL = "proof"
-MODULES = ["contracts.comm", "contracts.ssm"]
+MODULES = ["contracts.comm", "contracts.ssm", "contracts.devinfo"]
 FUNCTIONS = CLIENT_START + SERVER_START + SERVER_ANSWER + SEGMENTS[1:] + [
     P + "ClientSSM.confirmation[SEGMENTED_REQUEST, SegmentAck]", P + "ClientSSM.confirmation[AWAIT_CONFIRMATION, ComplexAck]",
-    P + "ClientSSM.confirmation[SEGMENTED_REQUEST, ComplexAck]", P + "ServerSSM.indication[SEGMENTED_RESPONSE, SegmentAck]"]
+    P + "ClientSSM.confirmation[SEGMENTED_REQUEST, ComplexAck]", P + "ServerSSM.indication[SEGMENTED_RESPONSE, SegmentAck]",
+    "bacpypes.app:DeviceInfoCache.iam_device_info", P + "ClientSSM.__init__", P + "ServerSSM.__init__"]
 LEMMAS = []
 MIN_OBLIGATIONS = 80
 BOUNDED = None
 ASSUMPTIONS = SSM_ASSUMPTIONS + [
-    "peer capabilities at the client come from the DeviceInfo record the transaction holds (max APDU 50 / 1024 / unknown, max NPDU 50 / 1497 / unknown, the four segmentation values, max segments 2..1000 / unknown); how that record gets into the cache from an I-Am is not under contract (see NOT_DECIDED)",
+    "peer capabilities at the client come from the DeviceInfo record the transaction holds (max APDU 50 / 1024 / unknown, max NPDU 50 / 1497 / unknown, the four segmentation values, max segments 2..1000 / unknown); that record is the one DeviceInfoCache.iam_device_info builds from the peer's I-Am and the transaction's constructor looks up by address (both under contract); inside the state-machine units DeviceInfoCache.acquire / release / update_device_info are ghost-traced externals",
 ]
 NOT_DECIDED = [
-    "DeviceInfoCache.iam_device_info / update_device_info: on the pinned tree a new record is never inserted into the cache and SSM.__init__ hands acquire() a record where it expects a key, so transactions run without peer information unless the application fills the cache itself; the client-side obligations are proved for every record a transaction may hold, the path from an I-Am to that record is outside these units",
     "fixed-header sizes of subsequent segments rely on the get_segment contract (same header shape for every index >= 1)",
 ]
 EXPLANATION = ("Start of a request: the first (or only) frame carries at most segmentSize octets with segmentSize + header <= the peer's announced max APDU (and max NPDU), "
@@ -21,7 +21,7 @@ EXPLANATION = ("Start of a request: the first (or only) frame carries at most se
                "the peer's max-segments, otherwise the requester gets an abort and nothing is sent. Server: the client's limits are recorded from the request header "
                "(max segments and max APDU decoded per 20.1.2.4/5 for segmented and unsegmented requests alike, segmented-response-accepted), the response goes out "
                "unsegmented only if header + payload fit the client's max APDU, segmented only if the request allowed it, the server can transmit segments and the count "
-               "is within the client's limit, otherwise an abort. Windows: the server's actual window is min(proposed by client, own) within 1..127; the sender adopts the "
+               "is within the client's limit, otherwise an abort. Peer knowledge: the record built from an I-Am (max APDU, segmentation support, vendor, address, instance) is what lookups by address and by instance return from then on, other devices' records untouched, and a new transaction to that peer holds exactly that record. Windows: the server's actual window is min(proposed by client, own) within 1..127; the sender adopts the "
                "window of every segment ack (never keeps a larger earlier one); the receiving client uses the window the server proposed.")
 LEVEL_TEXT = "Proof for all payload lengths and header values over the standard's max-APDU sizes and all four segmentation-support values per side."
-LEVEL_NOTE = "Trusted: pyvc (cross-checked against CPython every run), z3/cvc5. One genuine defect (segments exceeded the max APDU by the header size) was repaired."
+LEVEL_NOTE = "Trusted: pyvc (cross-checked against CPython every run), z3/cvc5. Three genuine defects (segments exceeded the max APDU by the header size; I-Am information never stored; transactions to a known peer could not be created) were repaired."
